@@ -241,12 +241,13 @@ def r3_canonical_constructor(ctx):
     ctx.rule('C17.R3', 'P3 who-may-construct: CanonicalType(..) is constructed only in Type::canonicalize (and derived impls), from the result '
              'of _canonicalize.')
     n = 0
+    CT = ctx.fb.adt_path(CR, T + 'type_::CanonicalType')
     for b in ctx.fb.bodies(CR):
         if b.is_promoted:
             continue
         for bb, j, st in b.all_assigns():
             rv = st['rv']
-            if rv['k'] == 'agg' and rv.get('ak') == 'adt' and strip_generics(rv['adt']) == T + 'type_::CanonicalType':
+            if rv['k'] == 'agg' and rv.get('ak') == 'adt' and strip_generics(rv['adt']) == CT:
                 n += 1
                 derived = b.raw.get('impl_trait') in ('core::clone::Clone', 'serde_core::de::Deserialize', 'serde::de::Deserialize') or b.raw.get('exp')
                 ok = b.nroot in {x.nroot for x in family_bodies(ctx, 'canonicalize')} or derived
@@ -264,6 +265,42 @@ TEMPLATE_FUNCS = [T + 'type_::{impl rustdoc_ir::Type}::_is_a_template_for', T + 
 RECURSIVE_TYPES = ('rustdoc_ir::Type', 'rustdoc_ir::path_type::PathType', 'rustdoc_ir::generic_argument::GenericArgument',
                    'rustdoc_ir::type_reference::TypeReference', 'rustdoc_ir::tuple::Tuple', 'rustdoc_ir::slice::Slice', 'rustdoc_ir::array::Array',
                    'rustdoc_ir::raw_pointer::RawPointer', 'rustdoc_ir::function_pointer::FunctionPointer')
+
+
+def _vacant_insert(b, ibb, it):
+    """the insert at `ibb` is dominated by the nothing-found edge (None / Vacant / contains_key == false) of a lookup on the same map with a key
+    that derives from the same source, and that edge leads nowhere else"""
+    from ..flow import forward_derived
+    def roots(op):
+        q = op_place(op)
+        if q is None:
+            return set()
+        _, locs = backward_slice(b, q['l'], through_calls=True)
+        return {l for l in locs if 1 <= l <= b.raw['argc']}
+    m_ins, k_ins = roots(it['args'][0]), roots(it['args'][1])
+    for lb, lt in b.calls():
+        m = (callee(lt) or '').split('::')[-1]
+        if lb == ibb or m not in ('get', 'get_mut', 'contains_key', 'entry', 'get_key_value') or not lt['aty'] or 'HashMap<alloc::string::String, rustdoc_ir::Type' not in lt['aty'][0]:
+            continue
+        if not (roots(lt['args'][0]) & m_ins) or not (roots(lt['args'][1]) & k_ins) or not b.dominates(lb, ibb):
+            continue
+        d = lt['dest']
+        derived = forward_derived(b, {d['l']}, through_calls=False) if not d.get('p') else set()
+        for sb in b.live_blocks():
+            w = b.term(sb)
+            if not w or w['k'] != 'switch' or not b.dominates(sb, ibb):
+                continue
+            if 'enum' in w and w['src']['l'] in derived:
+                found = {'core::option::Option': 'Some'}.get(strip_generics(w['enum']), 'Occupied' if strip_generics(w['enum']).endswith('::Entry') else None)
+                if found is None:
+                    continue
+                found_tg = [tg for nme, tg in w['ts'] if nme == found] + ([w['else']] if found in w.get('rest', []) else [])
+                if found_tg and not any(ibb in b.reachable(tg, avoid=[sb]) for tg in found_tg):
+                    return True
+            elif 'enum' not in w and m == 'contains_key' and op_place(w['d']) is not None and op_place(w['d'])['l'] in derived:
+                if ibb not in b.reachable(w['else'], avoid=[sb]):      # `else` = true = the key is there
+                    return True
+    return False
 
 
 def r4_bindings_compared_by_equality(ctx):
@@ -325,6 +362,10 @@ def r4_bindings_compared_by_equality(ctx):
                         if b.reachable(tg, avoid=cmp_blocks) & (rets | loop_heads):
                             bad = True
                     ok = bool(cmp_blocks) and bool(some_targets) and not bad
+                    if not ok and c.split('::')[-1] == 'insert' and _vacant_insert(b, bb, t):
+                        ctx.ob('C17.R4', 'binding-compared|%s|bb-order-%d' % (fn.split('::')[-1], n), True, b.loc(bb, t),
+                               'this insert only runs when a lookup of the same key in the same map has just found nothing: there is no previous binding to compare')
+                        continue
                     ctx.ob('C17.R4', 'binding-compared|%s|bb-order-%d' % (fn.split('::')[-1], n), ok, b.loc(bb, t),
                            'previous binding compared with the new one by PartialEq on Type (blocks %s) before the match goes on: %s' % (cmp_blocks, ok))
     ctx.floor('C17.R4', 'bindings.insert sites in the template family', n, 1)
